@@ -80,8 +80,8 @@ class Scheduler:
             cls = (ev.get("k") or {}).get("cls") or "cube.Cube"
             self.handles[key] = HandleView(cid, hid, sid, cls)
             self.by_client[cid].append(key)
-        elif kind == "READ":
-            _k, cid, hid, path = op
+        elif kind in ("READ", "READX"):
+            cid, hid, path = op[1], op[2], op[3]
             key = "%s.%s" % (cid, hid)
             hv = self.handles.get(key)
             if hv is not None:
@@ -126,7 +126,8 @@ class Scheduler:
             targs = [a for a in self.shared_arg_ids if self.sc["args"][a]["kind"] == "transforms"]
             if targs and r.random() < 0.8:
                 return [{"arg": r.choice(targs), "keys": [r.choice(["rows_dimension", "columns_dimension"])]}]
-            return [{"lit": r.choice(['{}', '{"prune":true}', '{"elements":{"1":{"hide":true}}}',
+            return [{"lit": r.choice(['{}', '{"prune":true}', '{"prune":1}', '{"prune":true}', '{"prune":1.0}',
+                                      '{"elements":{"1":{"hide":true}}}', '{"elements":{"1":{"hide":1}}}',
                                       '{"order":{"type":"explicit","element_ids":[2,"nope",1]}}'])}]
         return []
 
@@ -309,7 +310,20 @@ class Scheduler:
             return ["DROP", hv.cid, hv.hid]
         return self._next_deck_op()
 
+    def _ambient(self):
+        r = self.rnd
+        if r.random() < 0.5:
+            return {"errstate": "raise"}
+        return {"deep": r.choice([20, 28, 34, 36, 38, 40, 42, 46, 52, 60, 75, 95, 130])}
+
     def next_op(self):
+        op = self._next_op()
+        # F6: now and then the host is in an unusual state while a read is made
+        if op[0] == "READ" and "F6" in self.kn["faults"] and self.rnd.random() < self.kn.get("ambient_rate", 0.04):
+            return ["READX", op[1], op[2], op[3], self._ambient()]
+        return op
+
+    def _next_op(self):
         r = self.rnd
         self.steps += 1
         if self.kn.get("mode") == "sweep":
